@@ -96,6 +96,9 @@ def run_check(prop_id, rules, tier, level="other", explanation="", assumptions=(
             raise
         except Exception as e:  # a crash of the checker must not look like a pass
             fatal.append("%s: %s\n%s" % (rule.__name__, e, traceback.format_exc()))
+    for cfg in ctx.loaded():
+        if ctx.prog(cfg).collisions:
+            fatal.append("path normalisation collision (two bodies share a name): %s" % ctx.prog(cfg).collisions[:5])
     known = load_known()
     known_keys = {}
     for f in known.get("findings", []):
